@@ -216,6 +216,10 @@ def long_strings():
     out.append((T('OCTETSTRING', [('E', CTX, 0)]), b'q' * 1500))
     out.append((T('BITSTRING'), '1' * (8 * 1000 + 3)))
     out.append((T('BITSTRING'), '10' * 4000))
+    # a first CER segment (8000 bits) without a single 1-bit: bits collected so far that are "falsy" as a number
+    out.append((T('BITSTRING'), '0' * 8015))
+    out.append((T('BITSTRING'), '0' * 8000 + '1' * 15))
+    out.append((T('SEQUENCE', [], fields=[('b', T('BITSTRING'), 'req'), ('n', T('INTEGER'), 'req')]), {'b': '0' * 16007 + '1', 'n': 3}))
     out.append((T('UTF8String'), 'a' * 1500))
     out.append((T('BMPString'), '日' * 600))
     # tagged long strings: CER segments them (1000 octets) inside the tags -- value-object and Python-value path alike
